@@ -5,9 +5,40 @@ pub fn vf_dropped_tail<T>() -> (r: T) { unimplemented!() }
 #[verifier::external_body]
 pub fn verif_fmt() -> (r: String) { unimplemented!() }
 // ===== end =====
-// ===== TRUSTED: assumed std semantics of Option::or_else (not specified by vstd) =====
+// ===== TRUSTED: assumed std semantics of the Option combinators that vstd does not specify (their documented meaning) =====
 pub assume_specification<T, F: FnOnce() -> Option<T>>[ Option::<T>::or_else ](o: Option<T>, f: F) -> (r: Option<T>)
     requires o.is_none() ==> f.requires(()),
     ensures o.is_some() ==> r == o,
             o.is_none() ==> f.ensures((), r);
+pub assume_specification<T>[ Option::<T>::or ](a: Option<T>, b: Option<T>) -> (r: Option<T>)
+    ensures r == (if a.is_some() { a } else { b });
+pub assume_specification<T, U>[ Option::<T>::and ](a: Option<T>, b: Option<U>) -> (r: Option<U>)
+    ensures r == (if a.is_some() { b } else { None::<U> });
+pub assume_specification<T, U, F: FnOnce(T) -> U>[ Option::<T>::map_or ](o: Option<T>, default: U, f: F) -> (r: U)
+    requires o.is_some() ==> f.requires((o.unwrap(),)),
+    ensures o.is_none() ==> r == default, o.is_some() ==> f.ensures((o.unwrap(),), r);
+pub assume_specification<T, U, D: FnOnce() -> U, F: FnOnce(T) -> U>[ Option::<T>::map_or_else ](o: Option<T>, default: D, f: F) -> (r: U)
+    requires o.is_none() ==> default.requires(()), o.is_some() ==> f.requires((o.unwrap(),)),
+    ensures o.is_none() ==> default.ensures((), r), o.is_some() ==> f.ensures((o.unwrap(),), r);
+pub assume_specification<T, F: FnOnce(T) -> bool>[ Option::<T>::is_some_and ](o: Option<T>, f: F) -> (r: bool)
+    requires o.is_some() ==> f.requires((o.unwrap(),)),
+    ensures o.is_none() ==> !r, o.is_some() ==> f.ensures((o.unwrap(),), r);
+pub assume_specification<T, F: FnOnce(T) -> bool>[ Option::<T>::is_none_or ](o: Option<T>, f: F) -> (r: bool)
+    requires o.is_some() ==> f.requires((o.unwrap(),)),
+    ensures o.is_none() ==> r, o.is_some() ==> f.ensures((o.unwrap(),), r);
+// ... and of the Result combinators that vstd does not specify
+pub assume_specification<T, E>[ core::result::Result::<T, E>::unwrap_or ](o: core::result::Result<T, E>, default: T) -> (r: T)
+    ensures r == (if (o is Ok) { o->Ok_0 } else { default });
+pub assume_specification<T, E, F: FnOnce(E) -> T>[ core::result::Result::<T, E>::unwrap_or_else ](o: core::result::Result<T, E>, f: F) -> (r: T)
+    requires (o is Err) ==> f.requires((o->Err_0,)),
+    ensures (o is Ok) ==> r == o->Ok_0, (o is Err) ==> f.ensures((o->Err_0,), r);
+pub assume_specification<T, E, U, F: FnOnce(T) -> core::result::Result<U, E>>[ core::result::Result::<T, E>::and_then ](o: core::result::Result<T, E>, f: F) -> (r: core::result::Result<U, E>)
+    requires (o is Ok) ==> f.requires((o->Ok_0,)),
+    ensures (o is Ok) ==> f.ensures((o->Ok_0,), r), (o is Err) ==> r == Err::<U, E>(o->Err_0);
+pub assume_specification<T, E, U, F: FnOnce(T) -> U>[ core::result::Result::<T, E>::map_or ](o: core::result::Result<T, E>, default: U, f: F) -> (r: U)
+    requires (o is Ok) ==> f.requires((o->Ok_0,)),
+    ensures (o is Err) ==> r == default, (o is Ok) ==> f.ensures((o->Ok_0,), r);
+pub assume_specification<T, E, F: FnOnce(T) -> bool>[ core::result::Result::<T, E>::is_ok_and ](o: core::result::Result<T, E>, f: F) -> (r: bool)
+    requires (o is Ok) ==> f.requires((o->Ok_0,)),
+    ensures (o is Err) ==> !r, (o is Ok) ==> f.ensures((o->Ok_0,), r);
 // ===== end =====
